@@ -373,6 +373,28 @@ pub fn conc_case(seed: u64, threads: usize, ops: usize) -> Vec<String> {
             return out;
         }
     };
+    if seed % 3 != 1 {
+        // first use of a refused interface from several threads at once: each gets the refusal, none is left waiting
+        let with_panic = seed % 3 == 0;
+        let n = threads.min(6).max(2);
+        let replies = crate::abi::concurrent_refused_probe(n, with_panic, 30);
+        out.push("#stat conc-refused-first-use 1".to_string());
+        let stuck: Vec<String> = replies.iter().enumerate().filter(|(_, x)| x.is_none()).map(|(i, _)| i.to_string()).collect();
+        if !stuck.is_empty() {
+            out.push(format!("!C16 threads-did-not-finish refused-connection-requested-concurrently kind={} threads={} stuck={} (30 s)", if with_panic { "panic" } else { "error" }, n, stuck.join(",")));
+            for l in &out {
+                println!("{}", l);
+            }
+            std::process::exit(0);
+        }
+        let first = replies[0].clone().unwrap();
+        for (t, rep) in replies.iter().enumerate() {
+            let rep = rep.as_ref().unwrap();
+            if rep.starts_with("(ok") || *rep != first {
+                out.push(format!("!C16 concurrent-refusals-differ kind={} thread={} got={} first={}", if with_panic { "panic" } else { "error" }, t, rep.replace(' ', "_"), first.replace(' ', "_")));
+            }
+        }
+    }
     let (tx, rx) = mpsc::channel::<(usize, Vec<String>)>();
     let mut handles = Vec::new();
     for t in 0..threads {
